@@ -732,7 +732,8 @@ func (c *Ctx) deepLeaves(fn *ssa.Function, v ssa.Value, depth int) []deepLeaf {
 							if strings.Contains(quotedRe.ReplaceAllString(t, `""`), "@") {
 								okAll = false
 							}
-							sub = append(sub, deepLeaf{term: c.substParams(fn, call, t)})
+							// (where the value comes into being, seen from fn: the call)
+							sub = append(sub, deepLeaf{term: c.substParams(fn, call, t), inFn: call})
 						}
 					}
 					if okAll && len(sub) > 0 {
